@@ -85,6 +85,13 @@ def monitor(c, tr):
                 return "limited operation (T=%d) polled with a negative (= unlimited) time-out" % T
             if any(p[0] > T for p in polls):
                 return "limited operation (T=%d) polled with a larger time-out %s" % (T, [p[0] for p in polls])
+            if instant and opc in (24, 25, 26, 27, 32, 33):
+                # one wait: after an interruption it goes on with the time REMAINING, never with a fresh budget
+                before = 0
+                for p in polls:
+                    if p[0] * NS + before > T * NS:
+                        return "wait resumed with %d ms although only %d ns of the %d ms budget are left (budget restarted)" % (p[0], T * NS - before, T)
+                    before += p[2]
             if instant and honest_up and elapsed > T * NS:
                 return "blocked %d ns in total with T=%d ms (op %d)" % (elapsed, T, opc)
             if is_nothing(opc, oa, ret) and honest_lo and polls and polls[-1][1] == 0:
